@@ -117,6 +117,32 @@ class K:
         return out
 
 
+def directed():
+    """every special member (default / copy constructor, destructor) x {public, protected, private} x {declared, defaulted, deleted} on a base
+    class, seen from a derived class and from a class holding it, which rely on their implicit members; the copy constructors once more on a
+    class template that spells its own type with explicit template arguments"""
+    out = []
+    for which in ("dctor", "cctor", "dtor"):
+        for vis in ("public", "protected", "private"):
+            for mode in ("decl", "default", "delete"):
+                for templ in ((False, True) if which == "cctor" else (False,)):
+                    b = K("H0", "struct")
+                    setattr(b, which, SM(vis, mode))
+                    if which == "cctor":
+                        b.dctor = SM("public", "decl")      # (a declared copy constructor suppresses the implicit default constructor)
+                    b.templ, b.self_args = templ, templ
+                    d = K("H1", "struct")
+                    d.bases.append((b, "public", False))
+                    h = K("H2", "class")
+                    f = Field("cls", vis="public")
+                    f.cls = b
+                    h.fields.append(f)
+                    dd = K("H3", "struct")
+                    dd.bases.append((d, "protected", False))
+                    out.append([b, d, h, dd])
+    return out
+
+
 def gen_hierarchy(rng, n, allow_virtual_bases=True, covariant_p=0.3, bias=None, templates_p=0.0):
     """bias="defaulted": special members are mostly public and `= default` (whether they are then deleted is decided by the bases and members),
     with a few classes whose special members are deleted or private to inherit from / hold"""
